@@ -71,6 +71,13 @@ class Violation(Exception):
         self.detail = detail
 
 
+CASE_TIME_LIMIT = 600.0
+
+
+class CaseTimeout(Exception):
+    pass
+
+
 class HarnessError(Exception):
     pass
 
@@ -173,13 +180,32 @@ class _Recorder:
         """Run one case; raise on an unknown violation."""
         res = self.res
         res.evaluations += 1
+        import signal
+        import threading
+
+        # watchdog: no single case may hang the whole check (a library call that never returns); an overrun is a harness
+        # error (inconclusive), never a violation - properties about termination set their own, much shorter, deadline
+        armed = threading.current_thread() is threading.main_thread()
+        if armed:
+            def _overrun(signum, frame):
+                raise CaseTimeout(f"one case still running after {CASE_TIME_LIMIT} s")
+
+            old_handler = signal.signal(signal.SIGALRM, _overrun)
+            signal.setitimer(signal.ITIMER_REAL, CASE_TIME_LIMIT)
         try:
-            info = self.check.run(case) or {}
+            try:
+                info = self.check.run(case) or {}
+            finally:
+                if armed:
+                    signal.setitimer(signal.ITIMER_REAL, 0)
+                    signal.signal(signal.SIGALRM, old_handler)
         except Violation as v:
             self._failed(case, v)
             return
         except HarnessError:
             raise
+        except CaseTimeout as e:
+            raise HarnessError(f"inconclusive: {e} (case: {canon(case)[:600]})")
         except Exception as e:  # noqa
             origin = exc_origin(e)
             if origin is None:
